@@ -406,6 +406,8 @@ def run_property(mod_name: str, tier: str, seed: int,
 
     for sig, n in sorted(total.known.items()):
         what = known[sig].get('what', '')
+        if len(what) > 160:
+            what = what[:157] + '...'
         print(f'KNOWN-FINDING: property={prop_id} {sig} ({n} cases) {what}')
 
     rc = 0
